@@ -50,6 +50,14 @@ _WORKER = {}
 
 def _worker_init(prop, scratch, quiet):
     faulthandler.enable()
+    try:
+        import resource
+
+        # a decompression bomb in the code under test must end as MemoryError in that run, not as a dead machine
+        lim = int(os.environ.get("VERIF_WORKER_AS_LIMIT", str(3 << 30)))
+        resource.setrlimit(resource.RLIMIT_AS, (lim, lim))
+    except Exception:  # noqa: BLE001
+        pass
     d = tempfile.mkdtemp(prefix="w-", dir=scratch)
     os.chdir(d)
     if quiet:
